@@ -45,6 +45,8 @@ def parse_loops_file(path):
             cur_l = {"cls": m.group(2), "clauses": []}
             cur_f["loops"][int(m.group(1))] = cur_l
         else:
+            if "assume" in s:
+                raise InjectError(f"{path}: loop tables may only hold assigns/invariant/decreases clauses, not: {s}")
             cur_l["clauses"].append(s)
     return spec
 
